@@ -62,12 +62,14 @@ fn types_program(succ: &[Vec<usize>], is_enum: &[bool], wrap: &dyn Fn(usize, usi
         }
         fs.push("pad: bool".to_owned());
         if is_enum[i] {
+            // some enums declare an underlying type: fields are then illegal (reported by a LATER phase), the containment is the same
+            let under = if wrap(i, 7) % 5 == 0 { " : uint8" } else { "" };
             // alternate between one enumerator holding every field and one enumerator per field
             if (i + succ[i].len()) % 2 == 0 {
-                text.push_str(&format!("enum T{i} {{ A({}) }}\n", fs.join(", ")));
+                text.push_str(&format!("enum T{i}{under} {{ A({}) }}\n", fs.join(", ")));
             } else {
                 let es: Vec<String> = fs.iter().enumerate().map(|(k, f)| format!("E{k}({f})")).collect();
-                text.push_str(&format!("enum T{i} {{ {} }}\n", es.join(", ")));
+                text.push_str(&format!("enum T{i}{under} {{ {} }}\n", es.join(", ")));
             }
         } else {
             text.push_str(&format!("struct T{i} {{ {} }}\n", fs.join(", ")));
@@ -140,8 +142,8 @@ fn programs(deep: bool) -> Vec<Program> {
         }
     }
     // ---- family B: alias graphs over <= 3 aliases: alias i = W(target), target an alias, bool or a struct -----
-    let alias_wrappers = ["@", "Sequence<@>", "Dictionary<int32, @>", "Result<@, bool>", "Result<bool, @>", "Dictionary<@, int32>", "@?"];
-    let accept_ok = 5; // wrappers [0, 5) are legal for every target: an acyclic program built from them must be accepted
+    let alias_wrappers = ["@", "Sequence<@>", "Dictionary<int32, @>", "Result<@, bool>", "Result<bool, @>", "Result<@, @>", "Sequence<Result<@, Sequence<@>>>", "Dictionary<@, int32>", "@?"];
+    let accept_ok = 7; // wrappers [0, 5) are legal for every target: an acyclic program built from them must be accepted
     for n in 1..=3usize {
         let targets = n + 2; // aliases 0..n, then bool, then struct S
         let total = targets.pow(n as u32);
@@ -195,6 +197,13 @@ fn programs(deep: bool) -> Vec<Program> {
                 }
             }
             ps.push(Program { label: format!("C interfaces bases {bases:?}"), text, kind: Kind::Reject { cyclic, what: "interface inheritance" } });
+            // the same graph with every interface called `Svc`, each in its own module (one file per module)
+            let mut files = String::new();
+            for i in 0..n {
+                let b = if bases[i].is_empty() { String::new() } else { format!(" : {}", bases[i].iter().map(|j| format!("::V{j}::Svc")).collect::<Vec<_>>().join(", ")) };
+                files.push_str(&format!("module V{i}\ninterface Svc{b} {{ op{i}(p: bool) -> bool }}\n\u{0}"));
+            }
+            ps.push(Program { label: format!("C same-named interfaces in {n} modules, bases {bases:?}"), text: files, kind: Kind::Reject { cyclic, what: "interface inheritance" } });
         }
     }
     ps
@@ -224,7 +233,8 @@ pub fn child(from: usize) -> i32 {
         options.disable_color = true;
         let text = p.text.clone();
         let r = std::panic::catch_unwind(move || {
-            let state = slicec::compile_from_strings(&[&text], Some(&options));
+            let parts: Vec<&str> = text.split('\u{0}').filter(|p| !p.is_empty()).collect();
+            let state = slicec::compile_from_strings(&parts, Some(&options));
             let slicec::compilation_state::CompilationState { ast, diagnostics, files } = state;
             let diags = diagnostics.into_updated(&ast, &files, &options);
             let mut line = String::new();
